@@ -98,4 +98,8 @@ Section WithCtx.
       [unfold ws_write_gen at 1 3; destruct (skipn k z); reflexivity|].
     all: rewrite ws_write_gen_app_img, firstn_skipn; reflexivity.
   Qed.
+  Lemma ws_write_dir_pos asy st z : ws_pos (ws_write_dir asy st z) = ws_pos st + nlen z.
+  Proof. unfold ws_write_dir. cbn [ws_log_ev ws_pos]. apply ws_write_pos. Qed.
+  Lemma ws_write_dir_img asy st z : ws_img (ws_write_dir asy st z) = ws_img (ws_write st z).
+  Proof. reflexivity. Qed.
 End WithCtx.
